@@ -308,6 +308,11 @@ class GenericPlainRegistry(Generic[QuantityT, UnitT], metaclass=RegistryMeta):
         #: e.g: 'hz' - > set('Hz', )
         self._units_casei: dict[str, set[str]] = defaultdict(set)
 
+        #: Names of the prefixed units that were added to self._units on first use
+        #: (see get_name). They stand for prefix + unit and are not units to which
+        #: a further prefix or a plural can be applied.
+        self._prefixed_units: set[str] = set()
+
         #: Map prefix name (string) to its definition (PrefixDefinition).
         self._prefixes: dict[str, PrefixDefinition] = {"": PrefixDefinition("", 1)}
 
@@ -547,6 +552,7 @@ class GenericPlainRegistry(Generic[QuantityT, UnitT], metaclass=RegistryMeta):
             # The string may have been parsed (e.g. as prefix + unit) and memoised
             # before this definition existed.
             self._cache.parse_unit.pop(key, None)
+            self._prefixed_units.discard(key)
 
     def _add_defaults(self, defaults_definition: DefaultsDefinition) -> None:
         for k, v in defaults_definition.items():
@@ -696,6 +702,7 @@ class GenericPlainRegistry(Generic[QuantityT, UnitT], metaclass=RegistryMeta):
                 prefix_def.converter,
                 self.UnitsContainer({unit_name: 1}),
             )
+            self._prefixed_units.add(name)
             return prefix + unit_name
 
         return unit_name
@@ -1153,6 +1160,11 @@ class GenericPlainRegistry(Generic[QuantityT, UnitT], metaclass=RegistryMeta):
                         continue
                 if case_sensitive:
                     if name in self._units:
+                        if (prefix or suffix) and name in self._prefixed_units:
+                            # Registered on first use: accepting e.g. 'millikilometer'
+                            # or 'kilobs' (= 'kilob' + 's') only after 'kilometer' or
+                            # 'kilob' was looked up would make parsing depend on history.
+                            continue
                         yield (
                             self._prefixes[prefix].name,
                             self._units[name].name,
